@@ -699,7 +699,7 @@ fn make_limit(rng: &mut StdRng, cache: &mut BigCache, shape: &str, bits: u32) ->
             }
         },
         "over_qP" => loop {
-            let n = (rand_bits(rng, bits - 30) | Uint::ONE) * Uint::from(smooth_prime(rng, 30));
+            let n = (rand_bits(rng, bits - 40) | Uint::ONE) * Uint::from(smooth_prime(rng, 30));
             if n.bits() > 512 && SMALLS.iter().all(|&p| !(n % Uint::from(p)).is_zero()) {
                 return n;
             }
